@@ -82,9 +82,10 @@ let parse_query (s : string) : query * (n option) =
 
 let show_opt = function None -> "e" | Some v -> string_of_int (ii v)
 
-let answer_reads (r : query -> n option) (spec : query -> n option) (fresh : bool) (qs : (query * n option) list) =
-  "ok " ^ (if fresh then "1" else "0") ^ " " ^
-  String.concat " " (List.map (fun (q, _) -> show_opt (r q) ^ "/" ^ show_opt (spec q)) qs)
+(* per query: code-faithful read / block-by-block fold / fold over the wire per-transaction diffs *)
+let answer_reads r specb spect freshb fresht (qs : (query * n option) list) =
+  "ok " ^ (if freshb then "1" else "0") ^ " " ^ (if fresht then "1" else "0") ^ " " ^
+  String.concat " " (List.map (fun (q, _) -> show_opt (r q) ^ "/" ^ show_opt (specb q) ^ "/" ^ show_opt (spect q)) qs)
 
 let () =
   read_lines (fun line ->
@@ -116,6 +117,16 @@ let () =
          let id = !nviews in incr nviews; Hashtbl.replace views id v;
          let aligned = n > 0 && view_aligned (ni (n - 1)) v in
          Printf.printf "view %d %s %s\n" id (if aligned then "1" else "0") (show_chain v)
+     | "view" :: entries ->
+         (* a view given by its canonical text (what the Go code holds): the predicates are evaluated on it *)
+         let parse_entry e = match String.split_on_char ';' e with
+           | [num; id; items; d; cls] ->
+               { e_num = ni (int_of_string num); e_id = ni (int_of_string id); e_items = parse_items items;
+                 e_diff = parse_diff d; e_classes = parse_pairs cls }
+           | _ -> failwith ("entry: " ^ e) in
+         let v = if entries = ["-"] then [] else List.map parse_entry entries in
+         let id = !nviews in incr nviews; Hashtbl.replace views id v;
+         Printf.printf "view %d\n" id
      | ["snapat"; j; n] ->
          print_endline (show_chain (snapshot (hist_at (int_of_string j)) (ni (int_of_string n))))
      | ["nhist"] -> print_endline (string_of_int (List.length !hist))
@@ -136,7 +147,8 @@ let () =
               let es = upto b (List.rev v) in
               let spec = apply_diffs (List.map layer_of es) base in
               let fresh = deploy_fresh (List.map (fun e -> e.e_diff) es) in
-              print_endline (answer_reads r spec fresh qs))
+              let tl = tx_layers es in
+              print_endline (answer_reads r spec (apply_diffs tl base) fresh (deploy_fresh (List.map ldiff tl)) qs))
      | "before" :: vid :: b :: i :: qs ->
          let v = Hashtbl.find views (int_of_string vid) in
          let b = ni (int_of_string b) in
@@ -153,7 +165,8 @@ let () =
                    let ls = before_layers pre target i in
                    let spec = apply_diffs ls base in
                    let fresh = deploy_fresh (List.map ldiff ls) in
-                   print_endline (answer_reads r spec fresh qs)
+                   let tl = before_tx_layers pre target i in
+                   print_endline (answer_reads r spec (apply_diffs tl base) fresh (deploy_fresh (List.map ldiff tl)) qs)
                | _ -> print_endline "err broken"))
      | _ -> failwith ("command: " ^ line));
     flush stdout)
